@@ -73,7 +73,8 @@ Example ext_length_ignored_refuted :
     Ok (out_bytes (repeat 0 32) ++ [0] ++ [0x1301; 0] ++ [1; 0x0304; 0; 0] ++ [0], []).
 Proof. vm_compute. reflexivity. Qed.
 
-(* the undocumented exceptions the faithful model reproduces (candidate finding F5 in C17's terms) *)
-Example ee_empty_alpn_index_error :
-  pull_encrypted_extensions [8; 0; 0; 8; 0; 6; 0; 16; 0; 2; 0; 0] = Err E_INDEX.
+(* an empty ALPN list in EncryptedExtensions is a decode error (it escaped as IndexError before
+   /repo commit 759c7d3: candidate finding F5, now fixed) *)
+Example ee_empty_alpn_decode_error :
+  pull_encrypted_extensions [8; 0; 0; 8; 0; 6; 0; 16; 0; 2; 0; 0] = Err E_ALERT_DECODE.
 Proof. vm_compute. reflexivity. Qed.
